@@ -78,7 +78,7 @@ func init() {
 	register("safe.mark", func(a []string) { emit("mark %s", a[1]) })
 	register("safe.ok", func(a []string) {
 		if sm == nil {
-			panic("nil machine")
+			panic("nil pointer dereference: no machine constructed")
 		}
 		emit("constructed")
 	})
